@@ -12,15 +12,49 @@ from sa.pattern import find_expr, find_stmt, has_expr, has_stmt, match_expr, mat
 LOAD = 'dataflows.processors.load:load'
 
 
+def driven_to_end(ctx, pr, lp, others):
+    """zip() stops at the shorter argument: once the descriptors are used up the iterator of streams is not asked again.  When that
+    iterator is a generator over the resources of another flow (a (descriptor, iterators) source), the resources after the last
+    selected one are then never consumed and the source flow never learns that it is exhausted - a step of it that fails at that
+    moment, or a dumper that writes its descriptor then, goes unnoticed.  So after the pairing loop the iterator is driven to its end."""
+    run, repo = ctx.run, ctx.repo
+    run.rule('END', 'DRIVEN-TO-END: after the loop that pairs descriptors with streams by zip(), the iterator of streams is iterated to '
+                    'its end (a source that is another flow is exhausted within this run: trailing resources consumed, its end-of-stream '
+                    'work and errors happen)')
+    its = [pseudo(a) for a in lp.iter.args]
+    stream_it = its[1] if len(its) == 2 else None
+    blk = lp._parent.body if hasattr(lp._parent, 'body') else []
+    after = blk[blk.index(lp) + 1:] if lp in blk else []
+    ok = False
+    for st in after:
+        if isinstance(st, ast.For) and pseudo(st.iter) == stream_it and not any(isinstance(x, (ast.Break, ast.Return)) for x in ast.walk(st)):
+            ok = True
+        if isinstance(st, ast.Expr) and isinstance(st.value, ast.Call) and u(st.value.func) in ('collections.deque', 'deque') and \
+                st.value.args and pseudo(st.value.args[0]) == stream_it:
+            ok = True
+    run.check(ok, 'END', where(repo, lp), pr.qualname, 'for _ in %s: pass  (after the pairing loop)' % stream_it,
+              'the iterator of loaded streams is never asked for more than the descriptors it is paired with: with a (descriptor, '
+              'iterators) source the resources after the last selected one are never consumed and the source flow is never exhausted '
+              '(a failure of one of its steps at end of stream is not noticed, the run returns normally)')
+    for o in others:
+        run.check(o in after and pseudo(o.iter) == stream_it, 'WRAP', where(repo, o), pr.qualname, 'no other loop in process_resources',
+                  'a second loop over something else than the rest of the stream iterator')
+
+
 def wrappers(ctx, ld):
     run, repo = ctx.run, ctx.repo
     run.rule('WRAP', 'WRAPPERS: for every (descriptor, iterator) pair exactly one stream is yielded, after the upstream streams; the '
                      'missing-values, strip and limit wrappers are applied exactly when their option is set, the caster always')
     pr = ctx.N(ld.methods['process_resources'], keep=('missing_values_extractor', 'caster', 'stripper', 'limiter'))
-    loops = [n for n in own_nodes(pr.node) if isinstance(n, ast.For)]
+    all_loops = [n for n in own_nodes(pr.node) if isinstance(n, ast.For)]
+    from rules.stream import once_bound
+    for n in all_loops:
+        n.iter = once_bound(pr.node, n.iter)        # pairs = zip(...); for d, it in pairs
+    loops = [n for n in all_loops if isinstance(n.iter, ast.Call) and u(n.iter.func) in ('zip', 'itertools.zip_longest')]
     if len(loops) != 1:
         raise AnalysisError('load.process_resources: pair loop not found')
     lp = loops[0]
+    driven_to_end(ctx, pr, lp, [n for n in all_loops if n is not lp])
     ok = isinstance(lp.iter, ast.Call) and u(lp.iter.func) == 'zip' and \
         [pseudo(a) for a in lp.iter.args] == ['self.resource_descriptors', 'self.iterators']
     run.check(ok, 'WRAP', where(repo, lp), pr.qualname, 'for descriptor, it in zip(self.resource_descriptors, self.iterators)',
@@ -175,8 +209,8 @@ def row_wrappers(ctx, ld):
                 tnames = [t.id for t in ast.walk(inner.target) if isinstance(t, ast.Name)]
                 same_cell = cell in tnames or (cell and any(u(v) in ('%s[%s]' % (var, key), '%s.get(%s)' % (var, key))
                                                              for v in facts.values_of(cell)))
-                guard = st._parent
-                is_str = isinstance(guard, ast.If) and 'isinstance(%s, str)' % cell in u(guard.test)
+                from sa.model import dominating_atoms
+                is_str = any(pol_ and u(t_) == 'isinstance(%s, str)' % cell for t_, pol_ in dominating_atoms(st, loop))
                 if not (same_cell and key in tnames and is_str):
                     ok, why = False, 'the stripped value is not the string cell stored back under its own key'
     run.check(ok, 'R12', stp.where, stp.qualname, 'for k, v in r.items(): if str: r[k] = v.strip(); yield r',
@@ -206,7 +240,8 @@ def headers_and_tables(ctx, ld):
     run, repo = ctx.run, ctx.repo
     run.rule('R23', 'MODE-SIGNATURE(load): duplicate headers without deduplicate_headers raise; with it they are renamed; the guesser and '
                     'caster tables have exactly the three documented strategies; on_error reaches the schema caster')
-    sp = ld.methods['safe_process_datapackage']
+    # (private methods / helpers the loading branches were moved into are part of it; local names for self.<attr> are resolved)
+    sp = ctx.N(ld.methods['safe_process_datapackage'], keep=('rename_duplicate_headers', 'select_iterators'))
     renames = [c for c in ast.walk(sp.node) if isinstance(c, ast.Call) and isinstance(c.func, ast.Attribute)
                and c.func.attr == 'rename_duplicate_headers']
     if len(renames) != 1:
